@@ -246,6 +246,33 @@ def status_eval(case):
     return n, None, {h(('status', json.dumps(case, sort_keys=True), ref.rc, ref.out))}
 
 
+def default_format_cases(tier):
+    """--format defaults to the format of the first file (documented): spelling it out must change nothing, in any mode."""
+    for fam in FAMILIES:
+        for tf in fam:
+            for tt in fam:
+                for which in range(3):
+                    for mode in (None, '-e', '-d'):
+                        yield {'leg': 'default-format', 'tf': tf, 'tt': tt, 'doc': which, 'mode': mode}
+
+
+def default_format_eval(case):
+    dirp = pairspace.tmpdir()
+    tf, tt = case['tf'], case['tt']
+    fa = cli.write_file(dirp, 'df_a' + EXT[tf], content(tf, case['doc'], 0))
+    fb = cli.write_file(dirp, 'df_b' + EXT[tt], content(tt, case['doc'], 1))
+    base = ['--no-status', '--no-color'] + ([case['mode']] if case['mode'] else [])
+    o1 = cli.run_main(base + [fa, fb])
+    o2 = cli.run_main(base + ['--format', tf, fa, fb])
+    for o in (o1, o2):
+        if o.exc:
+            return 2, {'key': f'cli_exception {o.exc} @ {o.exc_site} : default format, mode {case["mode"] or "full"}', 'detail': o.tb[-1200:]}, set()
+    if (o1.rc, o1.out) != (o2.rc, o2.out):
+        return 2, {'key': f'default_format_is_not_the_first_files @ __main__.main : mode {case["mode"] or "full"}, from {tf} to {tt}',
+                   'detail': f'without --format: rc={o1.rc} {o1.out[:300]!r}; with --format {tf}: rc={o2.rc} {o2.out[:300]!r}'}, set()
+    return 2, None, {h(('df', json.dumps(case, sort_keys=True), o1.rc, o1.out))}
+
+
 def conflicts(a, b):
     groups = [{'-k', '--no-key-edits', '-ds', '--dict-strategy'}, {'-l', '-ll', '--no-list-edits', '--no-list-edits-when-same-length'},
               {'-c', '--color', '--no-color'}]
@@ -293,7 +320,7 @@ def alias_eval(case):
 
 
 def all_cases(tier):
-    return list(lattice_cases(tier)) + list(alias_cases(tier)) + list(status_cases(tier))
+    return list(lattice_cases(tier)) + list(alias_cases(tier)) + list(status_cases(tier)) + list(default_format_cases(tier))
 
 
 def evaluate(case):
@@ -302,6 +329,8 @@ def evaluate(case):
             return lattice_eval(case)
         if case['leg'] == 'status':
             return status_eval(case)
+        if case['leg'] == 'default-format':
+            return default_format_eval(case)
         return alias_eval(case)
     except CaseTimeout:
         return 0, {'key': 'timeout @ __main__.main', 'detail': json.dumps(case)}, set()
